@@ -98,6 +98,7 @@ type world struct {
 
 	sectorSeq  uint64
 	localAbort bool
+	sess       *sess2 // open RHP2 lock session (ses=1 ops)
 	cleanup    []func()
 }
 
@@ -162,6 +163,7 @@ func newWorldV1(t *testing.T, tr *vhlib.Trace, pr prices) *world {
 	w.sh3 = rhp3.NewSessionHandler(l3, w.hostKey, w.node.Chain, w.node.Syncer, w.node.Wallet, w.node.Accounts, w.node.Contracts, w.node.Registry, w.node.Volumes, w.node.Settings, log)
 	go w.sh3.Serve()
 	t.Cleanup(func() {
+		w.closeSession()
 		if w.t3 != nil {
 			w.t3.Close()
 		}
